@@ -5,7 +5,7 @@ CONSTANTS
   MaxUrl = 2
   ReuseOnLookup = FALSE
   FabricatedNorm = FALSE
-  EmptyParam = TRUE
+  EmptyParam = FALSE
   WildHostCheck = TRUE
   KF_Shadow = TRUE
   Source = "all"
